@@ -493,6 +493,18 @@ def decodeDefault (r : RNode) : Option PStr :=
   | some _ => BS.Gen.Pretty.soupDecodeDefaultEnc
   | none => BS.Gen.Pretty.tagDecodeDefaultEnc
 
+/-- Table fact (generated from the signatures of `Tag.decode`, `Tag.decode_contents`, `Tag.encode`, `Tag.encode_contents`,
+    `BeautifulSoup.decode`, `Tag.prettify`): every rendering entry point has the same default eventual encoding, and
+    `prettify`'s own `encoding` defaults to None (the str flavour) — so `prettify()`, `decode()`, `str()`, `decode_contents()`
+    and the text inside `encode()` with arguments omitted all render `<meta>` charsets and the XML declaration alike. -/
+theorem default_encodings_agree :
+    BS.Gen.Pretty.tagDecodeContentsDefaultEnc = BS.Gen.Pretty.tagDecodeDefaultEnc ∧
+    BS.Gen.Pretty.tagEncodeDefaultEnc = BS.Gen.Pretty.tagDecodeDefaultEnc ∧
+    BS.Gen.Pretty.tagEncodeContentsDefaultEnc = BS.Gen.Pretty.tagDecodeDefaultEnc ∧
+    BS.Gen.Pretty.soupDecodeDefaultEnc = BS.Gen.Pretty.tagDecodeDefaultEnc ∧
+    BS.Gen.Pretty.tagDecodeDefaultEnc = some BS.Gen.Pretty.defaultOutputEncoding ∧
+    BS.Gen.Pretty.tagPrettifyDefaultEnc = none := by decide +kernel
+
 /-- The two flavours of `prettify`. Without an encoding: the text `decode(indent_level=0)` gives with the encoding argument
     omitted — hence (whitespace unit) the same non-whitespace characters as `decode()`/`str()`; in particular a charset
     declaration in a `<meta>` is rewritten the same way in both. With an encoding `e`: the bytes of the text
